@@ -25,7 +25,9 @@ def spec_files():
 
 
 def run_verus(path, rlimit=None, threads=8, extra=()):
-    cmd = ['verus', path, '--output-json', '--time', '--error-format=json', '--num-threads', str(threads), '--multiple-errors', '4']
+    cmd = ['verus', path, '--output-json', '--time', '--error-format=json', '--num-threads', str(threads)]
+    if '--multiple-errors' not in extra:
+        cmd += ['--multiple-errors', '4']
     if rlimit:
         cmd += ['--rlimit', str(rlimit)]
     cmd += list(extra)
@@ -120,7 +122,9 @@ def run(repo='/repo', outdir=None, rlimit=None, modes=('A', 'B')):
     # run both modes concurrently
     import concurrent.futures
     with concurrent.futures.ThreadPoolExecutor(max_workers=len(modes)) as ex:
-        futs = {m: ex.submit(run_verus, w[m]['path'], rlimit) for m in modes}
+        futs = {m: ex.submit(run_verus, w[m]['path'], rlimit, 8,
+                             (['--verify-root', '--verify-function', '*vacuity_probe__*', '--multiple-errors', '0'] if m == 'P' else []))
+                for m in modes}
         for m, f in futs.items():
             procs[m] = f.result()
     for m in modes:
